@@ -268,7 +268,7 @@ int fam_ple(const vh_args_t *a) {
   int ncases = a->cases ? a->cases : (a->tier ? 4000 : 640);
   int nbig = a->tier ? 64 : 10;
   if (strstr(a->extra, "nobig")) nbig = 0;
-  for (long idx = 0; idx < ncases + nbig; idx++) {
+  for (long idx = strstr(a->extra, "onlybig") ? ncases : 0; idx < ncases + nbig; idx++) {
     if (!VH_SHARD(a, idx)) continue;
     vh_case_seed(a, idx);
     VH_CASE(idx)
